@@ -464,7 +464,90 @@ def explore_cp(cfg):
     return C.rec
 
 
+# ------------------------------------------------------------------------------------------------
+# one spec_property object reached through several classes (inheritance / mixin)
+# ------------------------------------------------------------------------------------------------
+def make_shared(cfg):
+    """-> {class name: class}; all share ONE spec_property object `p` whose getter returns base * 10 (an int)"""
+    from spec_classes import spec_class, spec_property
+
+    def getter(self):
+        return self.base * 10
+
+    p = spec_property(getter, cache=cfg["cache"])
+    if cfg["family"] == "reannotate":
+        Base = spec_class(type("Base", (), {"__annotations__": {"base": int, "p": int}, "base": 1, "p": p}))
+        # the subclass re-declares the attribute with another type: the int result must be refused THERE
+        Sub = spec_class(type("Sub", (Base,), {"__annotations__": {"p": str}}))
+        return {"Base": Base, "Sub": Sub}
+    if cfg["family"] == "repreparer":
+        def prep_base(self, v):
+            return v + 1000
+
+        def prep_sub(self, v):
+            return v + 2000
+
+        Base = spec_class(type("Base", (), {"__annotations__": {"base": int, "p": int}, "base": 1, "p": p, "_prepare_p": prep_base}))
+        Sub = spec_class(type("Sub", (Base,), {"__annotations__": {"p": int}, "_prepare_p": prep_sub}))
+        return {"Base": Base, "Sub": Sub}
+    # mixin: the property lives on a plain class; a plain user is unchecked, a spec user is checked
+    Mixin = type("Mixin", (), {"p": p, "base": 1})
+    PlainUser = type("PlainUser", (Mixin,), {})
+    SpecUser = spec_class(type("SpecUser", (Mixin,), {"__annotations__": {"base": int, "p": str}, "base": 1}))
+    return {"PlainUser": PlainUser, "SpecUser": SpecUser}
+
+
+SHARED_EXPECT = {
+    "reannotate": {"Base": ("value", 10), "Sub": ("raise", None)},
+    "repreparer": {"Base": ("value", 1010), "Sub": ("value", 2010)},
+    "mixin": {"PlainUser": ("value", 10), "SpecUser": ("raise", None)},
+}
+
+
+def shared_case(cfg, order, out):
+    classes = make_shared(cfg)
+    ok = True
+    for i, name in enumerate(order):
+        try:
+            got = ("value", classes[name]().p)
+        except (TypeError, ValueError) as e:
+            got = ("raise", None)
+        except Exception as e:
+            got = ("raise", type(e).__name__)
+        want = SHARED_EXPECT[cfg["family"]][name]
+        if got != want:
+            out.append(violation(PROP, {"target": "shared_spec_property", "family": cfg["family"], "cache": cfg["cache"], "kind": "wrong_read_through_class",
+                                        "cls": name, "position": i, "first_reader": order[0]},
+                                 {"expected": repr(want), "got": repr(got), "order": list(order)},
+                                 {"kind": "shared", "cfg": cfg, "order": list(order)}))
+            ok = False
+    return ok
+
+
+def explore_shared(cfg):
+    C = Counter()
+    names = sorted(SHARED_EXPECT[cfg["family"]])
+    orders = [o for r in (1, 2, 3) for o in itertools.product(names, repeat=r)]
+    for order in orders:
+        out = []
+        ok = shared_case(cfg, order, out)
+        C.inc("transitions", len(order))
+        C.inc("evaluations", len(order))
+        C.inc("states")
+        for v in out:
+            C.viol(v)
+        if ok:
+            C.inc("traces_validated_against_impl", len(order))
+            C.nontrivial((repr(cfg), order))
+    C.sample({"target": "shared_spec_property", "cfg": cfg, "orders": len(orders)})
+    return C.rec
+
+
 def run_case(case):
+    if case.get("kind") == "shared":
+        out = []
+        shared_case(case["cfg"], tuple(case["order"]), out)
+        return out
     out = []
     if case["kind"] == "spec_property":
         step_sp(case["cfg"], tuple(case["history"]), case["op"], out)
@@ -474,6 +557,8 @@ def run_case(case):
 
 
 def work(item):
+    if item["kind"] == "shared":
+        return explore_shared(item["cfg"])
     if item["kind"] == "spec_property":
         return explore_sp(item["cfg"])
     return explore_cp(item["cfg"])
@@ -490,6 +575,8 @@ def main(run):
         items.append({"kind": "classproperty",
                       "cfg": {"cache": ca, "per_subclass": ps, "overridable": ov, "fset": fs, "fdel": fd,
                               "state_cap": 20000}})
+    for fam, ca in itertools.product(("reannotate", "repreparer", "mixin"), (False, True)):
+        items.append({"kind": "shared", "cfg": {"family": fam, "cache": ca}})
     for rec in pmap(work, items):
         run.merge(rec)
     run.add(
@@ -498,7 +585,9 @@ def main(run):
             "fixpoint BFS per configuration: 16 (overridable,cache,setter,deleter) combinations x 5 hosts for spec_property "
             "with ops {read, assign 5/6/ill-typed, delete, set underlying 1/2}; 32 classproperty configurations over A>B>C with "
             "reads via class and instance, assign/delete via instances of each class, underlying state change; state = "
-            "(reference state, real instance/descriptor fingerprint); non-trivial = a new distinct state"
+            "(reference state, real instance/descriptor fingerprint); non-trivial = a new distinct state; plus one spec_property object "
+            "shared by a class and its re-annotating / re-preparing spec subclass or by a plain and a spec user of a mixin: every order "
+            "of <= 3 reads through the classes (fresh instances), each judged by the class it is read through"
         ),
     )
     run.assumptions += [
